@@ -37,6 +37,7 @@ impl SerializableValue {
         match property_code.kind() {
             PropertyCodeKind::Expr(ty, code) => {
                 let res = property_code.evaluate()?; // no warning; to be processed by cxx pass
+                verify_xml_chars(node, &res, diagnostics)?;
                 match ty {
                     TypeKind::Just(t) => {
                         parse_as_value_type(ctx, ty, t, node, code, res, diagnostics)
@@ -435,6 +436,7 @@ pub(super) fn build_item_model(
     match property_code.kind() {
         PropertyCodeKind::Expr(_, code) => {
             let res = property_code.evaluate()?; // no warning; to be processed by cxx pass
+            verify_xml_chars(node, &res, diagnostics)?;
             let ty = TypeKind::List(Box::new(TypeKind::STRING));
             verify_code_return_type(node, code, &ty, diagnostics)?;
             let items = res
@@ -473,6 +475,40 @@ pub(super) fn build_object_ref_list(
             ));
             None
         }
+    }
+}
+
+/// Checks that the evaluated strings consist of characters allowed in XML 1.0 document.
+///
+/// There's no way to represent the other characters (e.g. U+0001) in UI XML.
+#[must_use]
+fn verify_xml_chars(
+    node: Node,
+    res: &EvaluatedValue,
+    diagnostics: &mut Diagnostics,
+) -> Option<()> {
+    let is_xml_char = |c: char| {
+        matches!(c, '\t' | '\n' | '\r' | '\u{20}'..='\u{d7ff}' | '\u{e000}'..='\u{fffd}' | '\u{10000}'..)
+    };
+    let invalid_char = match res {
+        EvaluatedValue::String(s, _) => s.chars().find(|&c| !is_xml_char(c)),
+        EvaluatedValue::StringList(xs) => xs
+            .iter()
+            .flat_map(|(s, _)| s.chars())
+            .find(|&c| !is_xml_char(c)),
+        _ => None,
+    };
+    if let Some(c) = invalid_char {
+        diagnostics.push(Diagnostic::error(
+            node.byte_range(),
+            format!(
+                "character U+{:04X} cannot be represented in UI XML",
+                c as u32
+            ),
+        ));
+        None
+    } else {
+        Some(())
     }
 }
 
